@@ -23,6 +23,7 @@ func views() map[string]View {
 		"poolmon":   poolmonView{},
 		"handover":  handoverView{},
 		"pool":      poolView{},
+		"connin":    conninView{},
 	}
 }
 
